@@ -11,7 +11,21 @@ fn cat(v: &[[u8; 8]]) -> &'static [u8] {
     Box::leak(v.concat().into_boxed_slice())
 }
 
+/// One slice per program name for the whole process: a history that loads a program twice offers
+/// the very same slice twice (what an application switching between a few programs does - and
+/// what anything keyed on a program's address would need in order to show itself).
 pub fn program(name: &str) -> &'static [u8] {
+    static CACHE: std::sync::Mutex<Vec<(String, &'static [u8])>> = std::sync::Mutex::new(Vec::new());
+    let mut c = CACHE.lock().unwrap();
+    if let Some((_, p)) = c.iter().find(|(n, _)| n == name) {
+        return p;
+    }
+    let p = program_bytes(name);
+    c.push((name.to_string(), p));
+    p
+}
+
+fn program_bytes(name: &str) -> &'static [u8] {
     match name {
         "P1" => cat(&[ins(0xb7, 0, 0, 0, 1), ins(0x95, 0, 0, 0, 0)]),
         "P2" => cat(&[ins(0xb7, 0, 0, 0, 2), ins(0x95, 0, 0, 0, 0)]),
